@@ -25,7 +25,7 @@ type Case struct {
 }
 
 func cfgFor(kind string) gen.Config {
-	return gen.Config{Symlinks: kind == "MemFS", Root: kind == "MemFS", Base: "/w", NoChown: kind != "MemFS"}
+	return gen.Config{Symlinks: kind == "MemFS", Root: kind == "MemFS", Base: "/w", NoChown: false}
 }
 
 // steered reports the id of the open known finding whose situation (the
@@ -76,8 +76,8 @@ func runOps(c *vt.Ctx, w *world.World, ops []fsx.Op, stats *caseStats) *vt.Devia
 
 type caseStats struct {
 	mutOK, failNonENOENT int
-	types               map[string]bool
-	labels              []string
+	types                map[string]bool
+	labels               []string
 }
 
 var mutating = map[string]bool{"Mkdir": true, "MkdirAll": true, "Open": true, "Create": true, "WriteFile": true, "CreateTemp": true, "MkdirTemp": true,
